@@ -20,7 +20,7 @@ def le_value(s):
     return s[0] + 256 * le_value(s[1:])
 
 
-@spec(rec=True, args=['bytes'], ret='int', post=lambda s, result: result >= 0)
+@spec(rec=True, args=['bytes'], ret='int', fuel=2, post=lambda s, result: result >= 0)
 def be_value(s):
     """value of a big-endian byte string (snoc recursion)"""
     if len(s) == 0:
@@ -73,3 +73,48 @@ def be_rev(t):
     if len(t) > 0:
         be_rev(t[1:])
     return be_value(seq_reverse(t)) == le_value(t)
+
+
+@spec(rec=True, args=['int'], ret='bytes', fuel=2, post=lambda v, result: len(result) >= 1)
+def be_min_bytes(v):
+    """big-endian byte string of v >= 0 without leading zero bytes (one zero byte for 0): unhexlify of the even-padded '%x' % v"""
+    if v < 256:
+        return bytes([v])
+    return be_min_bytes(v // 256) + bytes([v % 256])
+
+
+@lemma(sig=dict(v=Int(0)), induct=lambda v: v)
+def be_value_of_min_bytes(v):
+    if v >= 256:
+        be_value_of_min_bytes(v // 256)
+    return be_value(be_min_bytes(v)) == v
+
+
+@lemma(sig=dict(v=Int(0)), induct=lambda v: v)
+def min_bytes_no_leading_zero(v):
+    """the first byte of the minimal encoding is non-zero unless v == 0"""
+    if v >= 256:
+        min_bytes_no_leading_zero(v // 256)
+    return implies(v > 0, be_min_bytes(v)[0] > 0) and be_min_bytes(v)[0] >= 0 and be_min_bytes(v)[0] < 256
+
+
+@lemma(sig=dict(m=Bytes()), induct=lambda m: len(m))
+def be_value_leading_zero(m):
+    if len(m) > 0:
+        be_value_leading_zero(m[:len(m) - 1])
+    return be_value(b"\x00" + m) == be_value(m)
+
+
+@spec(rec=True, args=['int'], ret='int', post=lambda k, result: result >= 1)
+def pow256(k):
+    if k <= 0:
+        return 1
+    return 256 * pow256(k - 1)
+
+
+@lemma(sig=dict(v=Int(0), k=Int(1)), requires=lambda v, k: v < pow256(k), induct=lambda v, k: k)
+def min_bytes_len(v, k):
+    """a number below 256**k has at most k bytes"""
+    if v >= 256 and k >= 2:
+        min_bytes_len(v // 256, k - 1)
+    return len(be_min_bytes(v)) <= k
